@@ -6,6 +6,7 @@ import (
 	"encoding/json"
 	"flag"
 	"fmt"
+	"github.com/ostafen/clover/v2/query"
 	"os"
 	"strings"
 	"sync"
@@ -44,7 +45,7 @@ func runTrace(u *Universe, backends []string, evs []E, header E, auditWrites boo
 		panic(err)
 	}
 	defer os.RemoveAll(dir)
-	x := &Exec{U: u, FileDir: dir}
+	x := &Exec{U: u, FileDir: dir, qcache: map[string]*query.Query{}}
 	for _, name := range backends {
 		var wrap func(store.Store) store.Store
 		var in *injector
